@@ -32,5 +32,6 @@ func To(t time.Time) *tspb.Timestamp {
 
 // From translates a protobuf Timestamp message to a Golang Time object.
 func From(t *tspb.Timestamp) time.Time {
-	return time.Unix(t.Seconds, int64(t.Nanos))
+	// A message without a timestamp (nil) reads as the zero timestamp, like any absent proto field.
+	return time.Unix(t.GetSeconds(), int64(t.GetNanos()))
 }
